@@ -1005,6 +1005,11 @@ fn has_safety_heading(attrs: &[syn::Attribute]) -> bool {
     false
 }
 
+/// `norm_tokens` for sibling extractors.
+pub fn norm_tokens_pub(t: &impl quote::ToTokens) -> String {
+    norm_tokens(t)
+}
+
 fn norm_tokens(t: &impl quote::ToTokens) -> String {
     let s = t.to_token_stream().to_string();
     // proc-macro2 prints tokens separated by single spaces: tighten the common cases
